@@ -40,7 +40,7 @@ Specific(t, T, Bt, P) ==
                            /\ t.op.k \in DOMAIN t.parts
                            /\ P = Tbl(t.parts[t.op.k])
                         THEN "none" ELSE "C08_SplitPartitions"
-      [] n = "intersect" -> IF IntersectionExact(T, Bt, P) THEN "none" ELSE "C08_IntersectionExact"
+      [] n = "intersect" -> IF IntersectionExactBy(T, Bt, t.op.f, P) THEN "none" ELSE "C08_IntersectionExact"
       [] n = "dropdup" -> IF DropDupOneBest(T, t.op.f, t.op.asc, P) THEN "none" ELSE "C08_DropDupOneBest"
       [] n = "merge_renumber" -> IF MergeNumbers(Ins(t), P) THEN "none" ELSE "C08_MergeNumbers"
       [] n = "merge_dropdup" -> IF MergeDropDupOneBest(Ins(t), P) THEN "none" ELSE "C08_MergeDropDupOneBest"
